@@ -365,7 +365,12 @@ def run_suite(pid, sname, spec, tier, seed, rundir):
                 mismatches.append(dict(kind="broken", component="missing-result:" + sname, payload=payload,
                                        detail="impl=%r model=%r" % (iv, mv), suite=sname, case_id=cid))
                 continue
-            m = cmpf(payload, iv, mv)
+            if iv == "hang":
+                m = dict(kind="violation", detail="the call did not return within the watchdog limit (non-termination) on this input")
+            elif iv.startswith("not-run"):
+                continue
+            else:
+                m = cmpf(payload, iv, mv)
             if m is not None:
                 m.update(suite=sname, payload=payload, case_id=cid, impl=iv[:4000], model=mv[:4000])
                 mismatches.append(m)
